@@ -4,10 +4,12 @@ import Dmn.Model.DecisionTable
 # Building a model evaluator: the places where `ModelEvaluator::new` / `evaluate_invocable`
 can panic or fail to terminate (C12)
 
-1. `parse_decision_table` (`decision_table.rs:260-346`) pairs rules with clauses **by index**:
+1. `parse_decision_table` (`decision_table.rs:261-360`) pairs rules with clauses **by index**:
    `rule.input_entries[i]` for every input clause, `rule.output_entries[i]` for every output
-   clause.  `buildTable` mirrors the loops with an explicit `panic` outcome; parsing of the
-   cell texts is given data (a flag per cell).
+   clause — after checking (since f36e6c9) that the table has an output clause and that every
+   rule has exactly one entry per clause.  `buildTable` mirrors the checks and the loops with an
+   explicit `panic` outcome for the indexing; parsing of the cell texts is given data (a flag
+   per cell).
 2. The recursive traversals that follow references without a visited set:
    * `bring_knowledge_requirements_into_context` (`decision.rs:197-218`) at build time,
    * the item-definition type / context evaluators (`item_definition_type.rs`,
@@ -77,9 +79,11 @@ def entryLoop (site : String) : Nat → List Bool → Outcome Nat
 def ruleLoop (nIn nOut : Nat) : List RuleS → Outcome Parsed
   | [] => .ok []
   | r :: rs =>
-    match entryLoop "decision_table.rs:297 rule.input_entries[i]" nIn r.inputs with
+    -- decision_table.rs:300-307: every rule has one entry per input clause and per output clause
+    if r.inputs.length ≠ nIn ∨ r.outputs.length ≠ nOut then .error "rule size mismatch" else
+    match entryLoop "decision_table.rs:311 rule.input_entries[i]" nIn r.inputs with
     | .ok a =>
-      match entryLoop "decision_table.rs:311 rule.output_entries[i]" nOut r.outputs with
+      match entryLoop "decision_table.rs:325 rule.output_entries[i]" nOut r.outputs with
       | .ok b =>
         match ruleLoop nIn nOut rs with
         | .ok ps => .ok ((a, b) :: ps)
@@ -94,13 +98,17 @@ def ruleLoop (nIn nOut : Nat) : List RuleS → Outcome Parsed
 def buildTable (t : TableS) : Outcome Parsed :=
   if t.ins.all (fun c => c.expr && optOk c.values) then
     if t.outs.all (fun c => optOk c.values && optOk c.default && optOk c.name) then
-      ruleLoop t.ins.length t.outs.length t.rules
+      -- decision_table.rs:292-295: a decision table has at least one output clause
+      if t.outs.isEmpty then .error "decision table without output clause"
+      else ruleLoop t.ins.length t.outs.length t.rules
     else .error "output clause does not parse"
   else .error "input clause does not parse"
 
-/-- Every rule has at least as many input / output entries as the table has clauses. -/
+/-- The table has an output clause and every rule has exactly one entry per clause: the
+shapes `parse_decision_table` accepts (all others are errors). -/
 def TableS.wellShaped (t : TableS) : Bool :=
-  t.rules.all (fun r => decide (t.ins.length ≤ r.inputs.length) && decide (t.outs.length ≤ r.outputs.length))
+  !t.outs.isEmpty &&
+  t.rules.all (fun r => decide (r.inputs.length = t.ins.length) && decide (r.outputs.length = t.outs.length))
 
 /-! ## 2. Reference-following traversals -/
 
